@@ -3,6 +3,7 @@
 # Octree / PointLocations searches are compared with brute force only (exploration evidence, not proved).
 import os, json, math
 import vf
+import c16_interact
 
 LEVEL = "proof"
 CLAIM = dict(cat="proof", design="§3 C16",
@@ -718,8 +719,10 @@ def build(ck, need_model=True):
     if not ok3:
         ck.breaks.append("harness does not compile against the repository:\n" + log3[-2500:])
     okm = False
+    ck.c16_extracted = False
     if need_model:
         ok1, log1 = vf.coq_extract("C16", d)
+        ck.c16_extracted = ok1
         ok2, log2 = (False, "") if not ok1 else vf.ocaml_build(d, ["c16_model"], DRIVER, "model")
         okm = ok1 and ok2
         if not okm:
@@ -760,6 +763,8 @@ def run(ck):
         spans.append((len(allops), len(allops) + len(ops)))
         allops += ops
     cov = ck.coverage
+    # traversal clauses (CartesianDensityGrid::interact / AMRDensityGrid::interact): own harness, own model driver
+    tr = c16_interact.run_interact(ck, ck.c16_extracted)
     if not ok3:
         ck.resolve_breaks_without_input()
         return
@@ -866,8 +871,8 @@ def run(ck):
                 found += 1
                 report(ci, why)
         ck.notes.append("search-on-break: oracle evaluated on %d traces of the real code, %d more fail" % (len(cases), found))
-    cov["evaluations"] = evals
-    cov["distinct_nontrivial"] = len(sigs)
+    cov["evaluations"] = evals + (tr["evaluations"] if tr else 0)
+    cov["distinct_nontrivial"] = len(sigs) + (tr["distinct"] if tr else 0)
     cov["rule"] = ("evaluations = answers of the real code compared with the extracted model (one per enumerated AMR cell: key, level, box, volume, "
                    "key of its midpoint; one per refine_cell / get_key(position) / Morton key / Cartesian index map, containing cell, neighbour list, "
                    "periodic wrap) plus Octree / PointLocations queries compared with brute force; distinct_nontrivial = distinct AMR cases "
@@ -910,8 +915,10 @@ def run(ck):
 
 
 def replay(ck, rp):
-    ok3, _ = build(ck, need_model=False)
     r = rp["replay"]
+    if isinstance(r, dict) and r.get("part") == "interact":
+        return c16_interact.replay_interact(ck, r)
+    ok3, _ = build(ck, need_model=False)
     if not ok3 or "ops" not in r:
         print("REPLAY: nothing to run")
         return 1 if not ok3 else 0
